@@ -151,6 +151,9 @@ def run_word(word, out):
                 active = r.fsm.is_pipeline_active()
                 before = r.snapshot()
                 r.automatic_ok = bool(ev[1])
+                # ev[1] == 2: the changeset is already in the repository's
+                # history (refused in step 1 after the activity check)
+                r.already_applied = ev[1] == 2
                 req = _Req()
                 mod = fsub
                 if len(ev) > 3 and ev[3]:
@@ -158,6 +161,19 @@ def run_word(word, out):
                 p = mod.Process('cs1', lambda: None, req, ev[2])
                 p.step_0()
                 r.run_calls()
+                if r.already_applied:
+                    r.already_applied = False
+                    out.label('changeset-already-applied')
+                    if r.snapshot() != before:
+                        out.fail('submit/refused-with-side-effects',
+                                 f'{where}: changeset already in history, '
+                                 f'refused, but {before} -> {r.snapshot()}')
+                    if not req.done:
+                        out.fail('submit/no-answer', where)
+                    _check(r, out, where, seen)
+                    if out.failures:
+                        return
+                    continue
                 if busy:
                     out.nontrivial = True
                     out.label('submission-while-step-outstanding')
@@ -171,6 +187,9 @@ def run_word(word, out):
                 else:
                     out.label('submission-accepted' if ev[1]
                               else 'submission-failed-in-step-2')
+            elif kind == 'newrev':
+                r.new_revision()
+                out.label('revision-adds-an-import')
             elif kind == 'work':
                 # an algorithm runs for real: a value and its metrics are
                 # stored, the next introspection has data to digest
@@ -258,10 +277,10 @@ _ev = st.one_of(
     st.just(['git']), st.just(['staged']), st.just(['archive']),
     st.just(['archive']), st.just(['update']), st.just(['update', 1]),
     st.just(['update', 2]),
-    st.tuples(st.just('submit'), st.integers(0, 1),
+    st.tuples(st.just('submit'), st.integers(0, 2),
               st.sampled_from(['0', '1', '2', '3']),
               st.integers(0, 1)).map(list),
-    st.tuples(st.just('submit'), st.integers(0, 1),
+    st.tuples(st.just('submit'), st.integers(0, 2),
               st.sampled_from(['0', '1', '2', '3']),
               st.integers(0, 1)).map(list),
     st.tuples(st.just('step'), st.integers(0, 2)).map(list),
@@ -271,6 +290,7 @@ _ev = st.one_of(
     st.tuples(st.just('guarded'), st.integers(0, 1)).map(list),
     st.tuples(st.just('guarded'), st.integers(0, 1)).map(list),
     st.just(['work']),
+    st.just(['newrev']),
 )
 _word = st.fixed_dictionaries({
     'word': st.lists(_ev, min_size=2, max_size=24).map(
@@ -278,7 +298,7 @@ _word = st.fixed_dictionaries({
 })
 
 ALPHABET = [['step', 0], ['git'], ['staged'], ['archive'], ['update', 1],
-            ['submit', 1, '0', 1], ['submit', 0, '3', 0], ['try', 2],
+            ['submit', 1, '0', 1], ['submit', 2, '3', 0], ['try', 2],
             ['try', 5], ['guarded', 0]]
 
 
@@ -299,6 +319,8 @@ def _cycle_words(draw):
     for _ in range(draw(st.integers(2, 4))):
         if draw(st.booleans()):
             word.append(['work'])
+        if draw(st.integers(0, 2)) == 0:
+            word.append(['newrev'])
         if draw(st.integers(0, 3)) == 0:
             word += [['archive'], ['step', 0]]
         word.append(['update', draw(st.integers(0, 2))])
